@@ -89,6 +89,14 @@ class FastaIndex:
         if self.check_for_index_files():
             self.load_index()
             self.load_assembly()
+            if [s.name for s in self.assembly.scaffolds] != list(self.index):
+                # The AGP file cannot hold every sequence a FASTA file can
+                # (e.g. empty sequences or names beginning with "#")
+                logging.warning(
+                    f"Assembly file '{self.agp_file}' does not list the same"
+                    f" sequences as index file '{self.fai_file}'"
+                )
+                self.run_indexing()
         else:
             self.run_indexing()
 
